@@ -33,6 +33,7 @@ type mockSpec struct {
 	BlockAfter bool `json:"block_after"`  // pondering: after the ponderhit keep going until stopped
 	Ponder     bool `json:"ponder_reply"` // return a ponder move
 	Finish     bool `json:"finish"`       // pondering: finish without waiting for stop/ponderhit (the real search does when it runs out of depth)
+	Deaf       bool `json:"deaf"`         // never polls the ponderhit channel (one long iteration: the real search polls it at iteration boundaries only)
 }
 
 type c13Script struct {
@@ -76,6 +77,9 @@ func (m *mockSearch) Go(b *board.Board, opts ...search.Option) (Score, move.Move
 	pm := move.Move(0)
 	if spec.Ponder {
 		pm = mockPonder
+	}
+	if spec.Deaf {
+		o.PonderHit = nil
 	}
 	stopped := func() bool {
 		if o.Stop == nil {
@@ -531,6 +535,21 @@ func c13Scripts(thorough bool) []c13Script {
 			}
 		}
 	}
+	// hand-written scripts outside the product grammar: two ponder searches in a row (what one leaves in the
+	// hand-over channel meets the next), and commands with tabs / surplus blanks around their words
+	// ("arbitrary white space between tokens is allowed")
+	pon, gp := "setoption name Ponder value true", "go ponder wtime 1000 btime 1000"
+	two := []string{pon, gp, "ponderhit", "stop", gp, "ponderhit", "stop", "isready"}
+	out = append(out,
+		c13Script{Name: "x-two-ponder-deaf", Lines: two, Mocks: []mockSpec{{Polls: 1, Block: true, Deaf: true}, {Polls: 1, Block: true, Deaf: true}}},
+		c13Script{Name: "x-two-ponder-deaf-then-polling", Lines: two, Mocks: []mockSpec{{Polls: 1, Block: true, Deaf: true}, {Polls: 1, Ponder: true, BlockAfter: true}}},
+		c13Script{Name: "x-two-ponder-polling", Lines: two, Mocks: []mockSpec{{Polls: 1, Ponder: true, BlockAfter: true}, {Polls: 1, Ponder: true, BlockAfter: true}}},
+		c13Script{Name: "x-two-ponder-stop-first", Lines: []string{pon, gp, "stop", gp, "isready", "ponderhit"}, Mocks: []mockSpec{{Polls: 1, Block: true, Deaf: true}, {Polls: 2, Ponder: true, Finish: true}}},
+		c13Script{Name: "x-tabs-stop", Lines: []string{"isready\t", "go\tinfinite", "isready\t", "stop\t", "isready"}, Mocks: []mockSpec{{Polls: 2, Block: true}}},
+		c13Script{Name: "x-tabs-quit", Lines: []string{"go infinite", "\tisready", "quit\t"}, Mocks: []mockSpec{{Polls: 2, Block: true}}},
+		c13Script{Name: "x-tabs-ponderhit", Lines: []string{pon, gp, "ponderhit\t", "  isready  "}, Mocks: []mockSpec{{Polls: 1, Ponder: true}}},
+		c13Script{Name: "x-tabs-movetime", Lines: []string{"go\tmovetime\t5", " isready\t", "stop \t "}, Mocks: []mockSpec{{Polls: 1, Block: true}}},
+	)
 	return out
 }
 
@@ -697,6 +716,9 @@ func runC13(r *ev.Run) {
 	// quick: the key scripts plus a seed-rotated 1/48 of the grammar: bounds 0..2, then unbounded within the time share;
 	// thorough: every script likewise, a seed-rotated 1/12 additionally at bound 3
 	isKey := func(sc c13Script) bool {
+		if strings.HasPrefix(sc.Name, "x-") {
+			return true
+		}
 		for _, k := range c13KeyScripts {
 			if sc.Name == k {
 				return true
@@ -738,6 +760,9 @@ func runC13(r *ev.Run) {
 		mu.Unlock()
 		if res.Failure != "" {
 			cls := "schedule/" + strings.Join(strings.Fields(strings.SplitN(res.Failure, ":", 2)[0])[:1], "-")
+			if c := res.Failure[0]; c >= '0' && c <= '9' {
+				cls = "schedule/answer-count" // "N go commands, M bestmove lines", "N isready commands, M readyok lines"
+			}
 			if strings.HasPrefix(res.Failure, "instrument error") {
 				fmt.Fprintln(os.Stderr, res.Failure)
 				os.Exit(2)
